@@ -212,7 +212,7 @@ impl Check for C02 {
             _ => 12,
         };
         let n = 1 + cf.below(nmax) as usize;
-        let mut knobs = Knobs::default();
+        let mut knobs = Knobs { avoid_cond_flag_branches: 85, ..Knobs::default() };
         match cf.below(8) {
             0 => {
                 knobs.max_arr = 0;
@@ -236,8 +236,16 @@ impl Check for C02 {
         let entry = if cf.chance(1, 2) { "enum" } else { "expect" };
         let ws = if cf.chance(1, 3) { Schedule::whole() } else { Schedule::random(&mut sr, total, wfl == Flavour::Sync) };
         let rs = if cf.chance(1, 5) { Schedule::whole() } else { Schedule::random(&mut sr, total, rfl == Flavour::Sync) };
+        // sometimes the typed helper is asked for a type other than the one that arrives
+        let wrong: Vec<Value> = if entry == "expect" && cf.chance(1, 4) && !names.is_empty() {
+            let k = cf.below(names.len() as u64);
+            let other = type_names(exp, dir);
+            vec![json!([k, *cf.pick(other)])]
+        } else {
+            vec![]
+        };
         json!({"kind": "session", "label": format!("{}:{}:{}", exp.name(), dir.name(), names.join("+")),
-            "exp": exp.name(), "dir": dir.name(), "frames": frames, "names": names,
+            "exp": exp.name(), "dir": dir.name(), "frames": frames, "names": names, "wrong_expect": wrong,
             "wflavour": wfl.name(), "rflavour": rfl.name(), "rentry": entry, "wsched": sched_json(&ws), "rsched": sched_json(&rs)})
     }
 
@@ -542,9 +550,13 @@ pub fn run_session(o: &mut Outcome, exp: Exp, dir: Dir, wl: &Workload, sc: &Valu
             _ => None,
         };
         let name = &wl.names[i];
+        // the typed helper may be asked for another type than the one on the wire (scenario "wrong_expect": [[position in the original frame list, type name]])
+        let wrong_name: Option<String> = sc["wrong_expect"].as_array().and_then(|a| a.iter().find(|e| e[0].as_u64() == Some(i as u64) && e[1].as_str() != Some(name.as_str())).and_then(|e| e[1].as_str().map(|s| s.to_string())));
+        let ask = wrong_name.clone().unwrap_or_else(|| name.clone());
+        let ask = &ask;
         let got = guarded(|| {
             if entry_expect {
-                match read_expect(exp, dir, name, rfl, dec, &mut r, budget) {
+                match read_expect(exp, dir, ask, rfl, dec, &mut r, budget) {
                     Some((ro, honoured)) => (ro, honoured),
                     None => (ReadOut { result: Err(ErrSig { outer: "HARNESS".into(), kind: "unknown-type".into(), detail: name.clone() }), polls: 0, budget_exceeded: false }, false),
                 }
@@ -556,6 +568,7 @@ pub fn run_session(o: &mut Outcome, exp: Exp, dir: Dir, wl: &Workload, sc: &Valu
         if c05 {
             // reference: the plain reader (same entry point, blocking, whole buffer) on the plaintext stream
             let name2 = name.clone();
+            let name2 = wrong_name.clone().unwrap_or(name2);
             let refr = guarded(|| {
                 if entry_expect {
                     read_expect(exp, dir, &name2, Flavour::Sync, None, &mut pr, budget).map(|x| x.0.result)
@@ -615,7 +628,7 @@ pub fn run_session(o: &mut Outcome, exp: Exp, dir: Dir, wl: &Workload, sc: &Valu
                     break;
                 }
                 Ok(()) => {
-                    let good = matches!(&got, Ok((ro, _)) if matches!(&ro.result, Ok(m) if m.same(&wl.msgs[i]))) && r.consumed() == bounds[k];
+                    let good = (matches!(&got, Ok((ro, _)) if matches!(&ro.result, Ok(m) if m.same(&wl.msgs[i]))) || (wrong_name.is_some() && matches!(&got, Ok((ro, _)) if matches!(&ro.result, Err(e) if e.outer == "Opcode")))) && r.consumed() == bounds[k];
                     if !good {
                         // both readers agree but not on the written value: C02's domain; the stream is desynchronised, stop
                         o.count("skipped_plain_reader_disagrees_with_writer", 1);
@@ -649,6 +662,26 @@ pub fn run_session(o: &mut Outcome, exp: Exp, dir: Dir, wl: &Workload, sc: &Valu
                 let consumed = r.consumed();
                 log.u64(consumed as u64);
                 let body_len = bounds[k] - if k == 0 { 0 } else { bounds[k - 1] };
+                if entry_expect && wrong_name.is_some() {
+                    // the helper must refuse with an opcode error naming what arrived, and still consume exactly this message
+                    let want = model_opcode(name, exp).map(|x| x.to_string());
+                    match &ro.result {
+                        Err(e) if e.outer == "Opcode" && Some(e.detail.clone()) == want && consumed == bounds[k] => {
+                            o.count("probe_wrong_expectation_refused_and_aligned", 1);
+                            continue;
+                        }
+                        Err(e) if e.outer == "HARNESS" => {
+                            o.count("expect_type_unknown", 1);
+                            in_step = false;
+                            break;
+                        }
+                        other => {
+                            o.violate("alignment", format!("wrong-expectation:{}:{}:{}", exp.name(), dir.name(), rfl.name()), format!("expecting {} while {} arrives: got {:?} after {} bytes (message ends at {}), wanted an opcode error reporting {:?} and exact consumption", ask, name, other.as_ref().map(|m| m.name()).map_err(|e| e.short()), consumed, bounds[k], want));
+                            in_step = false;
+                            break;
+                        }
+                    }
+                }
                 match ro.result {
                     Err(e) if e.outer == "HARNESS" => {
                         o.count("expect_type_unknown", 1);
